@@ -48,6 +48,15 @@ pub enum Mode {
         #[serde(default)]
         expect_reject: bool,
     },
+    /// C08 (b): decode byte strings number start..start+count (enumeration order: length, then value)
+    DecodeSweep {
+        start: u64,
+        count: u64,
+    },
+    /// C08 (b): decode `count` seeded mutations of real payloads
+    DecodeMutations {
+        count: u64,
+    },
 }
 
 #[derive(Serialize, Deserialize, Clone, Debug, PartialEq)]
@@ -224,6 +233,9 @@ pub enum InputMutation {
     NegativeStart(i32),
     /// re-encode with one frame one byte longer
     WrongSize,
+    /// re-encode with the last frame followed by a second copy of garbage of the same length:
+    /// twice the right size, so it still divides evenly between the players
+    DoubleSize,
 }
 
 #[derive(Serialize, Deserialize, Clone, Debug, PartialEq)]
